@@ -220,6 +220,20 @@ def impl_checks(ctx):
         ev += len(zt)
         if not np.all((zt > 0.05) & (zt < 5) & np.isfinite(zt)) or np.abs(np.diff(zt)).max() > 0.05:
             bad("build_pvt_gas z-factor column contains a search bound / jump", dict(sg=sg, T=T), [float(zt.min()), float(zt.max())])
+    # ---------------- consecutive evaluations at temperatures that differ only slightly (a drifting temperature log, 200.0 F then
+    # 200.004 F): each value is the root for ITS temperature (independent solve of the coded equation of state), whatever was
+    # evaluated just before
+    for k_ in range(6 if ctx.quick else 60):
+        tr0, pr0 = float(rng.uniform(1.1, 2.8)), dom.loguniform(rng, 0.05, 25.0)
+        seq = [tr0] + [tr0 * (1 + s_ * d_) for d_ in (1e-7, 1e-6, 4e-6, 1e-5, 1e-4) for s_ in (1, -1)]
+        for tr_ in seq:
+            z_ = z_impl(tr_, pr0)[0]
+            zref = dak.z_solve(tr_, pr0, False)
+            ev += 1
+            if not dom.relclose(z_, zref, 1e-9):
+                bad("z_factor_DAK evaluated right after a call at a slightly different temperature is not the root of the equation of state for its own temperature",
+                    dict(T_r=tr_, p_r=pr0, evaluated_after=dict(T_r_sequence=seq[:seq.index(tr_)][-3:])), dict(Z=z_, root=zref, rel_diff=abs(z_ / zref - 1)))
+                break
     # ---------------- interleaved evaluations (schedules): (a) deterministic - while one evaluation sits in its root search a
     # second evaluation at another temperature runs to completion (what a thread switch inside the solve does), by wrapping the
     # root finder the module calls; (b) real threads with a short switch interval.  Every value must equal the serial one.
